@@ -329,6 +329,17 @@ func (hs *serverHandshakeState) checkForResumption() bool {
 		return false
 	}
 
+	// 客户端认证策略对会话重用同样生效：会话中没有客户端证书而当前策略要求证书，
+	// 或会话中带有客户端证书而当前策略不使用证书时，不重用会话，回退到完整握手。
+	sessionHasClientCerts := len(hs.sessionState.peerCertificates) != 0
+	needClientCerts := requiresClientCert(c.config.ClientAuth)
+	if needClientCerts && !sessionHasClientCerts {
+		return false
+	}
+	if sessionHasClientCerts && c.config.ClientAuth == NoClientCert {
+		return false
+	}
+
 	if c.vers != hs.sessionState.vers {
 		return false
 	}
@@ -368,7 +379,14 @@ func (hs *serverHandshakeState) doResumeHandshake() error {
 		return err
 	}
 
-	c.peerCertificates = hs.sessionState.peerCertificates
+	// 按当前配置（策略、ClientCAs、时间）重新检查会话中记录的客户端证书
+	sessionCerts := make([][]byte, 0, len(hs.sessionState.peerCertificates))
+	for _, cert := range hs.sessionState.peerCertificates {
+		sessionCerts = append(sessionCerts, cert.Raw)
+	}
+	if err := c.processCertsFromClient(Certificate{Certificate: sessionCerts}); err != nil {
+		return err
+	}
 
 	if c.config.VerifyConnection != nil {
 		if err := c.config.VerifyConnection(c.connectionStateLocked()); err != nil {
